@@ -103,6 +103,8 @@ class XPathArray(XPathFunction):
             return [tk.evaluate(context) for tk in self._items]
 
     def __call__(self, *args: ta.FunctionArgType, context: ta.ContextType = None) -> ta.ValueType:
+        if len(args) == 1 and isinstance(args[0], list) and len(args[0]) == 1:
+            args = args[0][0],  # a one-item sequence is that item
         if len(args) != 1 or not isinstance(args[0], int) or isinstance(args[0], bool):
             raise self.error('XPTY0004', 'exactly one xs:integer argument is expected')
 
